@@ -142,6 +142,33 @@ func (c *netCase) exec(op string) {
 			synctest.Wait()
 			time.Sleep(150 * time.Millisecond)
 		}
+	case "lateupd": // lateupd n entries: an advertisement is stored and its ribUpdate(ns) is still waiting for the router
+		// mutex when the dead-neighbour check removes that neighbour; then the pending ribUpdate runs on the old state object
+		n := atoi(f[1])
+		var ns *table.NeighborState
+		c.r.Vf19Locked(func() {
+			ns = c.r.Vf19Neighbors().Get(c.routers[n])
+			if ns == nil {
+				return
+			}
+			adv := &tlv.Advertisement{}
+			if f[2] != "-" {
+				for _, e := range strings.Split(f[2], ",") {
+					x := strings.Split(e, ":")
+					adv.Entries = append(adv.Entries, &tlv.AdvEntry{
+						Destination: &tlv.Destination{Name: c.routers[atoi(x[0])]},
+						NextHop:     &tlv.Destination{Name: c.routers[atoi(x[1])]},
+						Cost:        u64(x[2]), OtherCost: u64(x[3])})
+				}
+			}
+			ns.Advert = adv // what advertDataHandler does before `go dv.ribUpdate(ns)`
+		})
+		if ns != nil {
+			time.Sleep(31 * time.Second) // the neighbour (and every other silent one) is now dead
+			c.r.Vf19CheckDeadNeighbors()
+			quiesce()
+			c.r.Vf19RibUpdate(ns) // the goroutine spawned by advertDataHandler finally gets the mutex
+		}
 	case "sleep":
 		time.Sleep(time.Duration(atoi(f[1])) * time.Millisecond)
 	case "deadcheck":
@@ -286,8 +313,16 @@ func genNetCase(w *bufio.Writer, rng *rand.Rand, k int, budget int) []string {
 			}
 			do(fmt.Sprintf("adv %d %s", n, advert(n)))
 			delete(pendingAdv, n)
-		case r < 38:
+		case r < 37:
 			do(fmt.Sprintf("advtmo %d", pickNbr()))
+		case r < 38: // teardown racing an in-flight advertisement
+			n := pickNbr()
+			if _, ok := faceOf[n]; !ok {
+				doSync(n, true)
+			}
+			do(fmt.Sprintf("lateupd %d %s", n, advert(n)))
+			faceOf = map[int]uint64{} // everybody silent for 31 s is gone
+			pendingAdv = map[int]bool{}
 		case r < 44:
 			do(fmt.Sprintf("sleep %d", []int{1000, 9000, 16000, 31000}[rng.Intn(4)]))
 		case r < 50:
